@@ -23,8 +23,12 @@ def compose(spec):
   J.register_stamp_filters()
   cfg = spec["config"] or {}
 
+  import copy
+
   def parsed(cls):
-    return cls.parse(cfg[cls.name()]) if cfg.get(cls.name()) is not None else None
+    # every use of a module configuration is parsed from its own copy of the JSON object (a parser must not depend on,
+    # or change, what an earlier parse saw)
+    return cls.parse(copy.deepcopy(cfg[cls.name()])) if cfg.get(cls.name()) is not None else None
 
   general = parsed(GeneralConfiguration)
   reader = spec["reader"]
@@ -57,7 +61,7 @@ def compose(spec):
   for name in spec["filters"]:
     cls = DocumentFilter.get_filter_by_name(name)
     ccls = cls.get_config_class()
-    conf = ccls.parse(cfg[ccls.name()]) if cfg.get(ccls.name()) is not None else ccls()
+    conf = ccls.parse(copy.deepcopy(cfg[ccls.name()])) if cfg.get(ccls.name()) is not None else ccls()
     cls(conf).process(doc)
 
   writer = spec["writer"]
